@@ -57,7 +57,7 @@ def section(chk: Check, max_len: int, max_params: int):
         else:
             exp = {"ok": False, "missing": "Missing parameter p%d" % exp_r["missing"]}
         if got != exp:
-            chk.violation("B3 command parser: parsed parameters differ from CommandParser!Parse",
+            chk.divergence("CommandParser", "B3 command parser: parsed parameters differ from CommandParser!Parse",
                           {"kind": "b3-commandparser", "ok": exp_r["ok"]},
                           {"params": r["ps"], "text": text, "expected": exp, "observed": got})
         if r["ps"] and text.strip():
